@@ -202,6 +202,9 @@ def _render(val, schema, so):
         return sorted(str(_render(x, schema, so)) for x in val)
     if isinstance(val, dict):
         return {str(k): _render(v, schema, so) for k, v in val.items()}
+    if 'Set' in type(val).__name__ and hasattr(val, '__iter__'):
+        # checked / frozen set types (inherited_fields, ...): order-free
+        return sorted(str(_render(x, schema, so)) for x in val)
     return str(val)
 
 
